@@ -56,6 +56,7 @@ import (
 	xchachapb "github.com/tink-crypto/tink-go/v2/proto/xchacha20_poly1305_go_proto"
 	"github.com/tink-crypto/tink-go/v2/secretdata"
 	"github.com/tink-crypto/tink-go/v2/signature/mldsa"
+	"github.com/tink-crypto/tink-go/v2/testkeyset"
 	"github.com/tink-crypto/tink-go/v2/verifbridge/c14b"
 	"verif/h"
 	"verif/ref"
@@ -534,6 +535,17 @@ func buildSeeds() []*seed {
 		}
 	}
 	pair("RsaSsaPkcs1PrivateKey/2048-SHA256", true, pTINK, rsaG(2048, func(k rsaKey) *tinkpb.KeyData { return pkcs1Priv(k, H) }))
+	// primes of different byte lengths (1088 / 960 bits): encoders that size one CRT value by the other prime's
+	// length only show here. Kept only if the library accepts such a key at all.
+	unbalanced := func(l string) *tinkpb.KeyData {
+		k := ref.KSRSAUnbalanced(2048, l == "")
+		return pkcs1Priv(rsaKey{n: k.N, e: big.NewInt(65537).Bytes(), d: k.D, p: k.P, q: k.Q, dp: k.DP, dq: k.DQ, crt: k.QInv}, H)
+	}
+	if _, err := testkeyset.NewHandle(&tinkpb.Keyset{PrimaryKeyId: id, Key: []*tinkpb.Keyset_Key{{KeyData: unbalanced(""), Status: tinkpb.KeyStatusType_ENABLED, KeyId: id, OutputPrefixType: pRAW}}}); err == nil {
+		if _, err := testkeyset.NewHandle(&tinkpb.Keyset{PrimaryKeyId: id, Key: []*tinkpb.Keyset_Key{{KeyData: unbalanced("alt"), Status: tinkpb.KeyStatusType_ENABLED, KeyId: id, OutputPrefixType: pRAW}}}); err == nil {
+			add("RsaSsaPkcs1PrivateKey/2048-SHA256-unbalanced-primes", true, pRAW, unbalanced, true)
+		}
+	}
 	pair("RsaSsaPkcs1PrivateKey/3072-SHA512", false, pRAW, rsaG(3072, func(k rsaKey) *tinkpb.KeyData { return pkcs1Priv(k, commonpb.HashType_SHA512) }))
 	pair("RsaSsaPssPrivateKey/2048-SHA256-32", true, pTINK, rsaG(2048, func(k rsaKey) *tinkpb.KeyData { return pssPriv(k, H, 32) }))
 	pair("RsaSsaPssPrivateKey/4096-SHA384-48", false, pCRUNCHY, rsaG(4096, func(k rsaKey) *tinkpb.KeyData { return pssPriv(k, commonpb.HashType_SHA384, 48) }))
